@@ -125,6 +125,12 @@ let handle (toks : string list) : string =
       let s = gen_stream_id chunk bs old nw in
       Printf.sprintf "cks=%s mem=%s str=%s app=%s apps=%s"
         (str_of_cks cks) (str_of_ops_opt m) (str_of_ops_opt s) (app_str old m) (app_str old s)
+  | ["DS"; bs; chunk; oldh; newh] ->
+      (* streaming generator only (large inputs) *)
+      let bs = z_of_int (int_of_string bs) and chunk = z_of_int (int_of_string chunk) in
+      let old = bytes_of_hex oldh and nw = bytes_of_hex newh in
+      let s = gen_stream_id chunk bs old nw in
+      Printf.sprintf "str=%s apps=%s" (str_of_ops_opt s) (app_str old s)
   | ["W"; bs; _mode; oldh; newh] ->
       (* wire path: model = streaming generator with the source's CHUNK_SIZE, applied (codecs are oracles) *)
       let bs = z_of_int (int_of_string bs) in
